@@ -68,7 +68,7 @@ def evaluate(label, prepare, checks, tier, seed):
         for pid in checks:
             rc, dt, fails = run_check(copy, pid, tier, seed, scratch)
             (res['caught_by'] if rc == 1 else res['missed_by']).append(pid)
-            res['detail'][pid] = {'exit': rc, 'wall': round(dt, 1), 'first': fails[0][:300] if fails else ''}
+            res['detail'][pid] = {'exit': rc, 'wall': round(dt, 1), 'first': fails[0][:300] if fails else '', 'all': [f[:110] for f in fails]}
         return res
     finally:
         shutil.rmtree(copy, ignore_errors=True)
